@@ -8,7 +8,7 @@ import typing
 
 from .._backends.sync import SyncBackend
 from .._backends.base import SOCKET_OPTION, NetworkBackend, NetworkStream
-from .._exceptions import ConnectError, ConnectTimeout
+from .._exceptions import ConnectError, ConnectionNotAvailable, ConnectTimeout
 from .._models import Origin, Request, Response
 from .._ssl import default_ssl_context
 from .._synchronization import Lock
@@ -74,6 +74,12 @@ class HTTPConnection(ConnectionInterface):
 
         try:
             with self._request_lock:
+                if self._connection is None and self._connect_failed:
+                    # Another request failed to establish this connection
+                    # while we were waiting for the lock, and the pool has
+                    # dropped it. Nothing has been sent for this request.
+                    raise ConnectionNotAvailable()
+
                 if self._connection is None:
                     stream = self._connect(request)
 
